@@ -100,6 +100,8 @@ func abstractions(name string) []abstraction {
 		out = append(out,
 			abstraction{"unknown number >= " + vfmt.V(orig), cty.UnknownVal(ty).Refine().NotNull().NumberRangeLowerBound(orig, true).NewValue(),
 				func(c cty.Value) bool { return !c.IsNull() && numLE(orig, c) }},
+			abstraction{"unknown number > " + vfmt.V(orig) + "-1", cty.UnknownVal(ty).Refine().NotNull().NumberRangeLowerBound(orig.Subtract(cty.NumberIntVal(1)), false).NewValue(),
+				func(c cty.Value) bool { return !c.IsNull() && c.GreaterThan(orig.Subtract(cty.NumberIntVal(1))).True() }},
 			abstraction{"unknown number < " + vfmt.V(orig) + "+1, > -100", cty.UnknownVal(ty).Refine().NotNull().NumberRangeUpperBound(orig.Add(cty.NumberIntVal(1)), false).NumberRangeLowerBound(cty.NumberIntVal(-100), false).NewValue(),
 				func(c cty.Value) bool { return !c.IsNull() && c.LessThan(orig.Add(cty.NumberIntVal(1))).True() }},
 		)
@@ -319,6 +321,46 @@ func judge(c engine.Case) engine.Outcome {
 			}
 		}
 		return engine.Fail("c05."+kindOf(cur)+"."+f.clause, "source: %s\nminimal sub-expression: %s\n%s", d.Src, ex.Canon(cur), f.detail)
+	}
+	// two variables abstracted at once: one as a plain typed unknown, the other with every abstraction
+	if len(vars) >= 2 && len(vars) <= 3 && d.E.Size() <= 7 {
+		for _, v1 := range vars {
+			t1 := pool.Vars[v1].Type()
+			if t1 == cty.DynamicPseudoType {
+				continue
+			}
+			for _, v2 := range vars {
+				if v1 == v2 {
+					continue
+				}
+				for _, ab := range abstractions(v2) {
+					m := pool.WithVar(v1, cty.UnknownVal(t1))
+					m[v2] = ab.val
+					av, ad := expr.Value(&hcl.EvalContext{Variables: m, Functions: fns})
+					if ad.HasErrors() {
+						continue
+					}
+					for _, i1 := range instances(v1) {
+						for _, i2 := range instances(v2) {
+							if !ab.admit(i2) {
+								continue
+							}
+							cm := pool.WithVar(v1, i1)
+							cm[v2] = i2
+							cv, cd := expr.Value(&hcl.EvalContext{Variables: cm, Functions: fns})
+							if cd.HasErrors() {
+								continue
+							}
+							total++
+							if cl, why := approx(av, cv); cl != "" {
+								return engine.Fail("c05."+kindOf(d.E)+".two-unknowns."+cl, "source: %s\n%s = %s and %s abstracted to %s (%s):\n  abstract result: %s\n  %s = %s, %s = %s gives: %s\n  %s",
+									d.Src, v1, vfmt.V(cty.UnknownVal(t1)), v2, vfmt.V(ab.val), ab.desc, vfmt.V(av), v1, vfmt.V(i1), v2, vfmt.V(i2), vfmt.V(cv), why)
+							}
+						}
+					}
+				}
+			}
+		}
 	}
 	// all variables unknown at once (typed unknowns), against the all-known run
 	if len(vars) > 1 && !bd.HasErrors() {
